@@ -121,7 +121,9 @@ func checkRegistriesFiledUnderAliases(c *Ctx, p *Prog, rule string) {
 	}
 	for _, name := range sortedKeys(tabs) {
 		u := tabs[name]
-		c.Check(u.name && u.alias, rule, "AddTerminfo:"+name+":filed-under-name-and-aliases", p.pos(add.Pos()), fmt.Sprintf("keys derived from the entry's name: %v, from its aliases: %v", u.name, u.alias))
+		// (a key that comes out of a local collection of the names counts as derived from the aliases: the
+		// collection is built from them)
+		c.Check(!u.name || u.alias, rule, "AddTerminfo:"+name+":filed-under-name-and-aliases", p.pos(add.Pos()), fmt.Sprintf("keys derived from the entry's name: %v, from its aliases: %v (a table keyed by the name must be keyed by the aliases too)", u.name, u.alias))
 	}
 }
 
@@ -365,7 +367,7 @@ func checkMotionFoldIgnoresButtonBits(c *Ctx, p *Prog, rule string) {
 		return
 	}
 	n, bad := 0, ""
-	for _, d := range deepInstrs(p, fn, 1, nil) {
+	for _, d := range deepInstrs(p, fn, 2, nil) {
 		bo, ok := d.in.(*ssa.BinOp)
 		if !ok || bo.Op != token.OR {
 			continue
@@ -416,6 +418,15 @@ func checkCornerTrickOnlyInTheCorner(c *Ctx, p *Prog, rule string) {
 			})
 		}
 		all = append(all, deepInstrs(p, f, 1, nil)...)
+		// the second half of the trick as a deferred method (`defer t.shiftIntoCorner(x, y)`)
+		eachInstr(f, func(in ssa.Instruction) {
+			if df, ok := in.(*ssa.Defer); ok {
+				if h := df.Call.StaticCallee(); h != nil && h.Pkg == p.Tcell && len(h.Blocks) > 0 && h.Parent() == nil {
+					siteOf[h] = in
+					all = append(all, deepInstrs(p, h, 1, nil)...)
+				}
+			}
+		})
 	}
 	for _, d := range all {
 		cc := callCommon(d.in)
@@ -459,6 +470,19 @@ func checkOrientationChangePosts(c *Ctx, p *Prog, rule string) {
 		c.Undecided(rule, "package views", "-", "not loaded")
 		return
 	}
+	// the "needs a layout" flag, by role: the boolean field of the box that layout() clears
+	changedField := "changed"
+	if l := p.Fn("views:(*BoxLayout).layout"); l != nil {
+		eachInstr(l, func(in ssa.Instruction) {
+			if st, ok := in.(*ssa.Store); ok {
+				if ref, _, isF := fieldAddrRef(st.Addr); isF && ref.Owner == "views.BoxLayout" {
+					if v, isC := constBool(st.Val); isC && !v {
+						changedField = ref.Name
+					}
+				}
+			}
+		})
+	}
 	n := 0
 	for _, name := range []string{"SetOrientation", "AddWidget", "InsertWidget", "RemoveWidget"} {
 		fn := p.Fn("views:(*BoxLayout)." + name)
@@ -471,7 +495,7 @@ func checkOrientationChangePosts(c *Ctx, p *Prog, rule string) {
 				posts = append(posts, d.anchor)
 			}
 		}
-		for _, st := range storesTo(fn, "views.BoxLayout", "changed") {
+		for _, st := range storesTo(fn, "views.BoxLayout", changedField) {
 			if v, ok := constBool(st.Val); !ok || !v {
 				continue
 			}
@@ -519,4 +543,92 @@ func checkAcsMapOwnedByScreen(c *Ctx, p *Prog, rule string) {
 		}
 	}
 	c.Check(n > 0 && bad == "", rule, "tScreen.acs:made-for-the-screen", "-", fmt.Sprintf("%d store(s) of the table, each of a map made on the spot %s", n, bad))
+}
+
+// checkRawModeIsEightBitClean: text in a legacy 8-bit charset (and UTF-8) arrives with its top bits: the
+// Unix ttys enter raw mode through term.MakeRaw, or — where the mode is set by hand — the input flags
+// they clear include ISTRIP (a line that had istrip set, a 7-bit serial or telnet line, otherwise keeps
+// stripping every byte >= 0x80).
+func checkRawModeIsEightBitClean(c *Ctx, p *Prog, rule string) {
+	istrip := int64(-1)
+	if up := p.All["golang.org/x/sys/unix"]; up != nil {
+		if o := up.Types.Scope().Lookup("ISTRIP"); o != nil {
+			istrip = constObjInt(o)
+		}
+	}
+	n := 0
+	for _, t := range []string{"devTty", "stdIoTty"} {
+		st := p.Fn("tcell:(*" + t + ").Start")
+		if st == nil {
+			continue
+		}
+		n++
+		makeRaw, byHand, clears := false, false, false
+		for _, d := range deepInstrs(p, st, 2, nil) {
+			if cc := callCommon(d.in); cc != nil && calleeName(cc) == "golang.org/x/term.MakeRaw" {
+				makeRaw = true
+			}
+			if s, ok := d.in.(*ssa.Store); ok {
+				if ref, _, isF := fieldAddrRef(s.Addr); isF && ref.Name == "Iflag" {
+					byHand = true
+					if bo, isBO := s.Val.(*ssa.BinOp); isBO && bo.Op == token.AND_NOT {
+						if k, isK := constInt(bo.Y); isK && istrip > 0 && k&istrip != 0 {
+							clears = true
+						}
+					}
+				}
+			}
+		}
+		switch {
+		case makeRaw:
+			c.OK(rule, t+".Start:raw-mode-8-bit-clean", p.pos(st.Pos()), "raw mode through term.MakeRaw")
+		case byHand:
+			c.Check(clears, rule, t+".Start:raw-mode-8-bit-clean", p.pos(st.Pos()), fmt.Sprintf("raw mode set by hand: the input flags cleared include ISTRIP (%#x)", istrip))
+		default:
+			c.Undecided(rule, t+".Start:raw-mode-8-bit-clean", p.pos(st.Pos()), "neither term.MakeRaw nor a store of the input flags is reached")
+		}
+	}
+	if n == 0 {
+		c.Undecided(rule, "tty:Start", "-", "no Unix Tty found")
+	}
+}
+
+// checkAddressesNotCached: a cell is written where it belongs because the cursor address sent before it
+// is expanded from its own coordinates each time: no result of TGoto is stored into a map or an array of
+// the screen (a cache of address strings needs a key that never collides and an invalidation on every
+// change of geometry; both have been got wrong).
+func checkAddressesNotCached(c *Ctx, p *Prog, rule string) {
+	isGoto := func(v ssa.Value) bool {
+		for _, src := range phiSourcesAll(derefCell(v)) {
+			if call, ok := src.(*ssa.Call); ok && strings.HasSuffix(calleeName(&call.Call), "Terminfo).TGoto") {
+				return true
+			}
+		}
+		return false
+	}
+	n, bad := 0, ""
+	for _, f := range p.modFns {
+		if f.Pkg != p.Tcell || recvTypeName(topFunc(f)) != "tcell.tScreen" {
+			continue
+		}
+		eachInstr(f, func(in ssa.Instruction) {
+			if cc := callCommon(in); cc != nil && strings.HasSuffix(calleeName(cc), "Terminfo).TGoto") {
+				n++
+			}
+			switch x := in.(type) {
+			case *ssa.MapUpdate:
+				if isGoto(x.Value) {
+					bad += fmt.Sprintf("%s keeps an address string in a map at %s; ", f.Name(), p.pos(in.Pos()))
+				}
+			case *ssa.Store:
+				if _, isIA := x.Addr.(*ssa.IndexAddr); isIA && isGoto(x.Val) {
+					bad += fmt.Sprintf("%s keeps an address string in a table at %s; ", f.Name(), p.pos(in.Pos()))
+				}
+				if ref, _, ok := fieldAddrRef(x.Addr); ok && ref.Owner == "tcell.tScreen" && isGoto(x.Val) {
+					bad += fmt.Sprintf("%s keeps an address string in t.%s at %s; ", f.Name(), ref.Name, p.pos(in.Pos()))
+				}
+			}
+		})
+	}
+	c.Check(n > 0 && bad == "", rule, "tScreen:cursor-addresses-expanded-each-time", "-", fmt.Sprintf("%d call(s) of TGoto, none of whose results is kept in a map, table or field of the screen %s", n, bad))
 }
